@@ -429,7 +429,27 @@ fn svm_probability(a: &Args, rep: &mut Rep) -> Result<(), String> {
     sp.unit_interval = true;
     sp.scale = Box::new(|_, _, _| 1.0);
     sp.row_form = Some(Box::new(|v| Cell::F(*Predict::<ArrayView1<f64>, Pr>::predict(&m, v) as f64)));
-    sweep::<Array1<Pr>, _, _>(&sp, &m, Some(&m), &store, None, rep);
+    // definitional oracle: the calibration coefficients are private, the derived Debug form shows them
+    let dbg = format!("{:?}", m);
+    let (pa, pb) = {
+        let key = "probability_coeffs: Some((";
+        let i = dbg.find(key).ok_or("Svm Debug form has no probability_coeffs")? + key.len();
+        let rest = &dbg[i..dbg[i..].find("))").ok_or("unterminated probability_coeffs")? + i];
+        let mut it = rest.split(',').map(|s| s.trim().parse::<f64>());
+        (it.next().ok_or("no A")?.map_err(e)?, it.next().ok_or("no B")?.map_err(e)?)
+    };
+    let counters: RefCell<BTreeMap<&'static str, u64>> = RefCell::new(BTreeMap::new());
+    let hook = |xb: &Array2<f64>, out: &Array1<Pr>| -> Vec<(String, String)> {
+        let f: Vec<f64> = xb.rows().into_iter().map(|r| m.weighted_sum(&r) - m.rho).collect();
+        if f.len() != out.len() {
+            return Vec::new();
+        }
+        sigmoid_oracle(pa, pb, &f, &out.iter().map(|p| **p).collect::<Vec<f32>>(), &counters)
+    };
+    sweep::<Array1<Pr>, _, _>(&sp, &m, Some(&m), &store, Some(&hook), rep);
+    for (k, v) in counters.borrow().iter() {
+        rep.bump(k, *v);
+    }
     Ok(())
 }
 
@@ -687,8 +707,17 @@ fn multi_class_model(a: &Args, rep: &mut Rep) -> Result<(), String> {
     multi_class_run("multi_class_model", a, rep, &x, members, false)
 }
 
-fn multi_class_run(kind: &'static str, a: &Args, rep: &mut Rep, x: &Array2<f64>, members: Vec<(usize, linfa_svm::Svm<f64, Pr>)>, via_new: bool) -> Result<(), String> {
-    let pool = a.pool(x, extreme(2));
+fn multi_class_run<M>(kind: &'static str, a: &Args, rep: &mut Rep, x: &Array2<f64>, members: Vec<(usize, M)>, via_new: bool) -> Result<(), String>
+where
+    M: Clone + 'static + PredictInplace<Array2<f64>, Array1<Pr>> + for<'v> PredictInplace<ArrayView2<'v, f64>, Array1<Pr>>,
+{
+    multi_class_run_pool(kind, a, rep, a.pool(x, extreme(x.ncols())), members, via_new)
+}
+
+fn multi_class_run_pool<M>(kind: &'static str, a: &Args, rep: &mut Rep, pool: Vec<Vec<f64>>, members: Vec<(usize, M)>, via_new: bool) -> Result<(), String>
+where
+    M: Clone + 'static + PredictInplace<Array2<f64>, Array1<Pr>> + for<'v> PredictInplace<ArrayView2<'v, f64>, Array1<Pr>>,
+{
     let store = build_store(&pool, a.max_len, &a.only);
     let (mo, mv): (MultiClassModel<Array2<f64>, usize>, MultiClassModel<ArrayView2<f64>, usize>) = if via_new {
         (
@@ -701,7 +730,7 @@ fn multi_class_run(kind: &'static str, a: &Args, rep: &mut Rep, x: &Array2<f64>,
     let sp = spec(kind, a, &pool);
     let counters: RefCell<BTreeMap<&'static str, u64>> = RefCell::new(BTreeMap::new());
     let hook = |xb: &Array2<f64>, out: &Array1<usize>| -> Vec<(String, String)> {
-        let probs: Vec<Array1<Pr>> = members.iter().map(|(_, m)| m.predict(xb)).collect();
+        let probs: Vec<Array1<Pr>> = members.iter().map(|(_, m)| Predict::<&Array2<f64>, Array1<Pr>>::predict(m, xb)).collect();
         let mut v = Vec::new();
         if out.len() != xb.nrows() {
             return v;
@@ -709,6 +738,16 @@ fn multi_class_run(kind: &'static str, a: &Args, rep: &mut Rep, x: &Array2<f64>,
         for i in 0..out.len() {
             let pr: Vec<f32> = probs.iter().map(|p| *p[i]).collect();
             let best = pr.iter().cloned().fold(f32::MIN, f32::max);
+            {
+                let mut c = counters.borrow_mut();
+                let runner_up = pr.iter().cloned().filter(|p| *p < best).fold(f32::MIN, f32::max);
+                if runner_up > f32::MIN && best - runner_up <= f32::EPSILON {
+                    *c.entry("multi_class_rows_best_beats_runner_up_by_at_most_f32_epsilon").or_insert(0) += 1;
+                }
+                if best < f32::EPSILON && best > 0.0 {
+                    *c.entry("multi_class_rows_all_members_below_f32_epsilon").or_insert(0) += 1;
+                }
+            }
             let admissible: Vec<usize> = members.iter().zip(pr.iter()).filter(|(_, p)| **p == best).map(|(m, _)| m.0).collect();
             let mut c = counters.borrow_mut();
             *c.entry("multi_class_rows_checked").or_insert(0) += 1;
@@ -817,6 +856,85 @@ impl PredictInplace<Array2<f64>, Array1<f64>> for LinearScorer {
     }
 }
 
+/// Definitional oracle of a Platt-calibrated probability: p = 1 / (1 + exp(t)), t = A f + B.
+/// Compared in log space with a RELATIVE tolerance on the low-probability side (t >= 0):
+/// |ln p - (-softplus(t))| <= 4 eps32 (1 + |t|) (t is rounded to f32 before the sigmoid: 6e-8 |t|;
+/// exp / division in f32: a few ulp), absolutely (4 eps32) on the side where p >= 0.5; where the exact
+/// value is below the smallest normal f32 the output must be at most twice that. Order: for t_i < t_j the
+/// output must not increase, and must strictly decrease wherever the exact values differ by more
+/// than 4x those tolerances.
+fn sigmoid_oracle(pa: f64, pb: f64, f: &[f64], out: &[f32], counters: &RefCell<BTreeMap<&'static str, u64>>) -> Vec<(String, String)> {
+    let eps = f32::EPSILON as f64;
+    let tiny = f32::MIN_POSITIVE as f64;
+    let mut v = Vec::new();
+    let mut c = counters.borrow_mut();
+    let t: Vec<f64> = f.iter().map(|f| pa * f + pb).collect();
+    let ln_ref = |t: f64| -(t.max(0.0) + (-t.abs()).exp().ln_1p());
+    for i in 0..out.len() {
+        let p = out[i] as f64;
+        *c.entry("sigmoid_outputs_checked").or_insert(0) += 1;
+        if !(0.0..=1.0).contains(&p) {
+            v.push(("composite.probability_outside_unit_interval".to_string(), format!("row {}: output {} is not in [0, 1]", i, p)));
+            return v;
+        }
+        if t[i].is_nan() {
+            continue;
+        }
+        let lr = ln_ref(t[i]);
+        let pr = lr.exp();
+        let bad = if t[i] >= 0.0 {
+            if pr < tiny {
+                *c.entry("sigmoid_outputs_below_smallest_normal_f32").or_insert(0) += 1;
+                p > 2.0 * tiny
+            } else {
+                *c.entry("sigmoid_outputs_checked_in_log_space").or_insert(0) += 1;
+                if t[i] >= 16.0 {
+                    *c.entry("sigmoid_outputs_with_calibrated_decision_value_above_16").or_insert(0) += 1;
+                }
+                !(p > 0.0 && (p.ln() - lr).abs() <= 4.0 * eps * (1.0 + t[i].abs()))
+            }
+        } else {
+            (p - pr).abs() > 4.0 * eps
+        };
+        if bad {
+            v.push((
+                "composite.not_the_documented_sigmoid".to_string(),
+                format!("row {}: output {:e} (ln = {}) but 1/(1+exp(A f + B)) = {:e} (ln = {}) with A = {}, B = {}, decision value f = {}, A f + B = {}", i, p, p.ln(), pr, lr, pa, pb, f[i], t[i]),
+            ));
+            return v;
+        }
+    }
+    for i in 0..out.len() {
+        for j in 0..out.len() {
+            if t[i] < t[j] {
+                *c.entry("sigmoid_ordered_pairs_checked").or_insert(0) += 1;
+                let (pi, pj) = (out[i], out[j]);
+                let (li, lj) = (ln_ref(t[i]), ln_ref(t[j]));
+                let must_be_strict = if t[i] >= 0.0 {
+                    lj.exp() >= tiny && (li - lj) > 16.0 * eps * (1.0 + t[j].abs())
+                } else if t[j] < 0.0 {
+                    (li.exp() - lj.exp()) > 16.0 * eps
+                } else {
+                    // across 0.5
+                    (li.exp() - lj.exp()) > 16.0 * eps && lj.exp() >= tiny
+                };
+                let ok = if must_be_strict { pi > pj } else { pi >= pj };
+                if must_be_strict {
+                    *c.entry("sigmoid_pairs_required_strictly_ordered").or_insert(0) += 1;
+                }
+                if !ok {
+                    v.push((
+                        "composite.not_monotone_in_decision_value".to_string(),
+                        format!("rows {} and {}: A f + B = {} < {} (exact probabilities {:e} > {:e}) but outputs {:e} and {:e}", i, j, t[i], t[j], li.exp(), lj.exp(), pi, pj),
+                    ));
+                    return v;
+                }
+            }
+        }
+    }
+    v
+}
+
 /// reads the private fields `a`, `b` out of the derived Debug representation `Platt { a: .., b: .., obj: .. }`
 fn platt_ab(dbg: &str) -> Result<(f64, f64), String> {
     let grab = |key: &str| -> Result<f64, String> {
@@ -845,50 +963,11 @@ where
     sp.scale = Box::new(|_, _, _| 1.0);
     let counters: RefCell<BTreeMap<&'static str, u64>> = RefCell::new(BTreeMap::new());
     let hook = |xb: &Array2<f64>, out: &Array1<Pr>| -> Vec<(String, String)> {
-        let mut v = Vec::new();
         let f: Array1<f64> = inner.predict(xb);
         if f.len() != out.len() {
-            return v;
+            return Vec::new();
         }
-        let mut c = counters.borrow_mut();
-        for i in 0..out.len() {
-            let p = *out[i] as f64;
-            *c.entry("platt_outputs_checked").or_insert(0) += 1;
-            if !(0.0..=1.0).contains(&p) {
-                v.push(("composite.probability_outside_unit_interval".to_string(), format!("row {}: output {} is not in [0, 1]", i, p)));
-                return v;
-            }
-            // documented: g(x) = 1 / (1 + exp(A f(x) + B)); the implementation evaluates it in f32
-            let want = 1.0 / (1.0 + (pa * f[i] + pb).exp());
-            if (p - want).abs() > 1e-6 {
-                v.push((
-                    "composite.not_the_documented_sigmoid".to_string(),
-                    format!("row {}: output {} but 1/(1+exp(A f + B)) = {} with A = {}, B = {}, inner decision value f = {}", i, p, want, pa, pb, f[i]),
-                ));
-                return v;
-            }
-        }
-        // monotone in the inner decision value: over all pairs of the batch
-        for i in 0..out.len() {
-            for j in 0..out.len() {
-                if f[i] < f[j] {
-                    *c.entry("platt_ordered_pairs_checked").or_insert(0) += 1;
-                    let (pi, pj) = (*out[i], *out[j]);
-                    let ok = if pa < 0.0 { pi <= pj } else if pa > 0.0 { pi >= pj } else { pi == pj };
-                    if !ok {
-                        v.push((
-                            "composite.not_monotone_in_decision_value".to_string(),
-                            format!("rows {} and {}: decision values {} < {} but probabilities {} and {} (A = {})", i, j, f[i], f[j], pi, pj, pa),
-                        ));
-                        return v;
-                    }
-                    if pi != pj {
-                        *c.entry("platt_strictly_ordered_pairs").or_insert(0) += 1;
-                    }
-                }
-            }
-        }
-        v
+        sigmoid_oracle(pa, pb, f.as_slice().unwrap(), &out.iter().map(|p| **p).collect::<Vec<f32>>(), &counters)
     };
     // Platt's bound `O: PredictInplace<ArrayBase<D, Ix2>, ArrayBase<D, Ix1>>` admits owned arrays only
     sweep::<Array1<Pr>, _, NoView<Array1<Pr>>>(&sp, &m, None, &store, Some(&hook), rep);
@@ -1080,6 +1159,91 @@ fn decision_tree_row_on_split_threshold(a: &Args, rep: &mut Rep) -> Result<(), S
     Ok(())
 }
 
+/// Platt over the linear scorer with query rows placed so that the calibrated decision value
+/// A f + B takes prescribed values spanning [-100, 100] (incl. just below / above 16, 24.5, 41, 88)
+fn platt_decision_value_ladder(a: &Args, rep: &mut Rep) -> Result<(), String> {
+    let (x, y) = blobs(80, 2, 2, 361 + a.instance as u64);
+    let inner = LinearScorer { w: vec![[0.4, -0.3, 0.05][a.instance % 3], 0.25], c: -0.1 };
+    let labels = y.mapv(|c| c == 1);
+    let probe: Platt<f64, LinearScorer> = Platt::params().fit_with(inner.clone(), &Dataset::new(x.clone(), labels.clone())).map_err(e)?;
+    let (pa, pb) = platt_ab(&format!("{:?}", probe))?;
+    let targets: [f64; 6] = match (a.instance % 3, a.extreme) {
+        (0, false) => [-100.0, -24.5, -16.5, 16.5, 24.5, 100.0],
+        (1, false) => [-41.0, -8.0, -0.5, 0.5, 8.0, 41.0],
+        (2, false) => [-88.0, -60.0, 15.9, 16.1, 60.0, 88.0],
+        (0, true) => [17.0, 20.0, 30.0, 50.0, 70.0, 86.0],
+        (1, true) => [86.5, 87.0, 88.5, 95.0, 103.0, 110.0],
+        _ => [-110.0, -17.5, -15.0, 33.0, 41.0, 1e4],
+    };
+    let w2: f64 = inner.w.iter().map(|v| v * v).sum();
+    let pool: Vec<Vec<f64>> = targets
+        .iter()
+        .map(|t| {
+            let s = (t - pb) / pa - inner.c;
+            inner.w.iter().map(|w| w / w2 * s).collect()
+        })
+        .collect();
+    platt_run("platt_decision_value_ladder", a, rep, &x, labels, inner, pool)
+}
+
+/// Harness-side probability scorer for the near-tie MultiClassModel instances: a per-row function
+/// base(x) = sigmoid_f32(w.x + bias), then shifted by `ulps`, increased by `add` or scaled by `factor`
+#[derive(Clone, Debug)]
+struct TinyScorer {
+    w: Vec<f64>,
+    bias: f64,
+    ulps: i32,
+    add: f32,
+    factor: f32,
+}
+impl TinyScorer {
+    fn p(&self, row: ndarray::ArrayView1<f64>) -> f32 {
+        let t = (row.iter().zip(self.w.iter()).map(|(a, b)| a * b).sum::<f64>() + self.bias) as f32;
+        let base = if t >= 0.0 { 1.0 / (1.0 + (-t).exp()) } else { t.exp() / (1.0 + t.exp()) };
+        let shifted = f32::from_bits((base.to_bits() as i64 + self.ulps as i64).max(0) as u32);
+        let v = (shifted + self.add) * self.factor;
+        if v.is_finite() {
+            v.clamp(0.0, 1.0)
+        } else {
+            0.0
+        }
+    }
+}
+impl<D: ndarray::Data<Elem = f64>> PredictInplace<ndarray::ArrayBase<D, ndarray::Ix2>, Array1<Pr>> for TinyScorer {
+    fn predict_inplace<'a>(&'a self, x: &'a ndarray::ArrayBase<D, ndarray::Ix2>, y: &mut Array1<Pr>) {
+        assert_eq!(x.nrows(), y.len(), "The number of data points must match the number of output targets.");
+        for (i, r) in x.rows().into_iter().enumerate() {
+            y[i] = Pr::new(self.p(r));
+        }
+    }
+    fn default_target(&self, x: &ndarray::ArrayBase<D, ndarray::Ix2>) -> Array1<Pr> {
+        Array1::default(x.nrows())
+    }
+}
+
+/// MultiClassModel whose members are nearly tied or all unconfident: the label of the member with
+/// the (exactly) largest probability is demanded however small the lead
+fn multi_class_model_near_ties(a: &Args, rep: &mut Rep) -> Result<(), String> {
+    let plain = |w: Vec<f64>, bias: f64| TinyScorer { w, bias, ulps: 0, add: 0.0, factor: 1.0 };
+    let members: Vec<(usize, TinyScorer)> = match a.instance % 3 {
+        // three linear scorers 120 degrees apart with bias -20: every probability is ~1e-9 .. 1e-7
+        0 => vec![(10, plain(vec![1.0, 0.0], -20.0)), (20, plain(vec![-0.5, 0.8660254037844386], -20.0)), (30, plain(vec![-0.5, -0.8660254037844386], -20.0))],
+        // one base probability (~0.2 .. 0.5): +0 ulp, +1 ulp, +1e-7, +1e-8 (later members lead by a hair)
+        1 => {
+            let b = plain(vec![0.7, -0.2], -0.8);
+            vec![(10, b.clone()), (20, TinyScorer { ulps: 1, ..b.clone() }), (30, TinyScorer { add: 1e-7, ..b.clone() }), (40, TinyScorer { add: 1e-8, ..b })]
+        }
+        // scaled-down probabilities: 1e-9, 2e-8, 1e-11, 1.9e-8 times the same base
+        _ => {
+            let b = plain(vec![0.3, 0.4], 0.2);
+            vec![(10, TinyScorer { factor: 1e-9, ..b.clone() }), (20, TinyScorer { factor: 2e-8, ..b.clone() }), (30, TinyScorer { factor: 1e-11, ..b.clone() }), (40, TinyScorer { factor: 1.9e-8, ..b })]
+        }
+    };
+    let x = Array2::from_shape_vec((3, 2), vec![1.0, 0.0, -0.5, 0.8, 0.3, 0.2]).unwrap();
+    let pool = if a.extreme { a.pool(&x, extreme(2)) } else { vec![vec![1.0, 0.0], vec![-0.5, 0.8], vec![1.0, 0.0], vec![-0.5, -0.8], vec![0.3, 0.2], vec![2.0, -1.0]] };
+    multi_class_run_pool("multi_class_model_near_ties", a, rep, pool, members, a.instance % 3 == 1)
+}
+
 pub fn registry() -> Vec<Entry> {
     macro_rules! ent {
         ($x:expr; $($f:ident),* $(,)?) => { vec![$(Entry { name: stringify!($f), extreme_ok: $x, run: $f }),*] };
@@ -1092,6 +1256,7 @@ pub fn registry() -> Vec<Entry> {
         decision_tree, gaussian_nb, multinomial_nb, ftrl, pca, fast_ica,
         multi_target_model, multi_class_model, platt_linear_scorer, platt_svm,
         multi_target_model_single_member, multi_class_model_few_members,
+        platt_decision_value_ladder, multi_class_model_near_ties,
     ];
     v.extend(ent![false;
         svm_bool_linear_on_hyperplane, svm_one_class_on_boundary, logistic_binary_threshold_on_row, kmeans_equidistant_row,
